@@ -1198,7 +1198,7 @@ def check_c20(ctx):
         for cell in ["typed1", "unsafe2"]:
             sources.append(("seq", g["seqs"], keep, dict(CELLS[cell], comps=FAMILIES[fam]["exec"]["comps"], probes=3, misuse=6, qmis=True,
                                                           seed=ctx.seed, stats=True)))
-    sources += driven_sources(ctx, bins[0][1], ["wide", "rel2", "obs", "lock", "reset"], 8 if quick else 200, "typed11",
+    sources += driven_sources(ctx, bins[0][1], ["wide", "rel2", "obs", "lock", "reset", "arity"], 8 if quick else 200, "typed11",
                               dict(stats=True, misuse=8, qmis=True))
     sources += driven_sources(ctx, bins[0][1], ["wide", "lock"], 8 if quick else 200, "unsafe1", dict(misuse=8, qmis=True))
     product_check(ctx, "C20", variants, sources, "c20")
